@@ -465,6 +465,9 @@ def run_property(modname, tier='quick', seed=0, rebaseline=False, only=None, can
         if c.allow_raise:
             rep.assumptions.append(f'{c.name} may raise {"/".join(c.allow_raise)} as far as the proof goes (no safety obligation for it; callers assume normal return)')
     rep.assumptions += list(getattr(module, 'ASSUMPTIONS', []))
+    for must in ('ASSUMPTIONS', 'EXPLANATION', 'QUICK_CANARIES'):
+        if not getattr(module, must, None):
+            rep.faults.append(f'contract module {modname} has no {must}: its metadata section is missing (evidence would under-report assumptions / run no canaries)')
     bl0 = baseline().get(pid, {})
     for c in under:
         fr = verify_function(reg, c, timeout_ms)
